@@ -89,6 +89,10 @@ def codegen(overlay_dir, patterns, variant="model", log_path=None, timeout=1800)
             shutil.copy(linked, dst)
             out.append(dict(name=short, pretty=h["pretty_name"], mangled=h["mangled_name"],
                             goto=dst, stubs=[s["original"].replace(" ", "") for s in h["attributes"]["stubs"]]))
+        if variant == "s":
+            rc, o2, to = _run(["goto-cc", "-c", os.path.join(VERIF, "models/cprover/mem.c"), "-o", os.path.join(outdir, "cprover_mem.o")], 120)
+            if rc != 0:
+                raise RuntimeError("goto-cc of models/cprover/mem.c failed: " + (o2 or ""))
         # prune build dirs whose overlay no longer exists (bounds disk usage, never touches a live run)
         for full in stale_dirs:
             shutil.rmtree(full, ignore_errors=True)
@@ -125,8 +129,13 @@ def _run(cmd, timeout, mem_gb=None, stdout_path=None):
 def prepare(h):
     """goto-cc/goto-instrument steps; idempotent per harness file."""
     g = h["goto"]
+    link = [g]
+    if h.get("variant") == "s":
+        # byte-loop memcpy/memmove (models/cprover/mem.c) instead of CBMC's array-theory versions;
+        # compiled once per overlay by codegen()
+        link.append(os.path.join(os.path.dirname(g), "cprover_mem.o"))
     steps = [
-        ["goto-cc", g, "--function", h["mangled"], "-o", g],
+        ["goto-cc"] + link + ["--function", h["mangled"], "-o", g],
         ["goto-instrument", "--add-library", "--no-malloc-may-fail", g, g],
         ["goto-instrument", "--generate-function-body-options", "assert-false-assume-false",
          "--generate-function-body", ".*", "--drop-unused-functions", g, g],
